@@ -115,9 +115,18 @@ func ZZC06() {
 			return nil
 		}
 		nb++
-		c := v.Byte()
-		v.Assume(c == ' ' || c == '\t' || c == '\n' || c == '\r')
-		return []byte{c}
+		// a run of one (after a root scalar: one or two) symbolic blanks at this gap
+		run := 1
+		if d.Kind != gen.KObj && d.Kind != gen.KArr {
+			run = v.Choose(1, 2)
+		}
+		out := make([]byte, 0, run)
+		for i := 0; i < run; i++ {
+			c := v.Byte()
+			v.Assume(c == ' ' || c == '\t' || c == '\n' || c == '\r')
+			out = append(out, c)
+		}
+		return out
 	})
 	v.Observe("text", text)
 	want := c06Expect(d, nil)
